@@ -514,8 +514,10 @@ func c10Shape(seq string, circular bool, e c10Enz) string {
 		}
 		return "no-pair"
 	}
-	if e.ovh > l {
-		return "overhang-longer-than-site"
+	for _, s := range rv {
+		if s+e.ovh > n { // only possible when the overhang is longer than the site
+			return "reverse-site-near-linear-end"
+		}
 	}
 	for _, s := range fw {
 		if s+l+e.skip+e.ovh > n {
@@ -539,6 +541,9 @@ type c10Fail struct {
 type c10Collector struct{ m map[string][]c10Fail }
 
 func (c *c10Collector) add(clause, class, input, detail string, size int) {
+	if !strings.HasPrefix(input, "enzyme=BsaI(") && !strings.HasPrefix(input, "enzyme=BbsI(") && !strings.HasPrefix(input, "enzyme=BtgZI(") {
+		size += 100000 // witnesses with a built-in enzyme are listed first
+	}
 	if c.m == nil {
 		c.m = map[string][]c10Fail{}
 	}
@@ -649,12 +654,12 @@ func TestVerifC10(t *testing.T) {
 	c10Table(t)
 
 	// ---- fragments: multiset equality with the ring/linear oracle ----
-	nFrag := 2500
-	nRotSmall, nRotBig := 500, 60
-	nLin := 1500
-	nCase := 400
+	nFrag := 15000
+	nRotSmall, nRotBig := 2000, 200
+	nLin := 8000
+	nCase := 1500
 	if thorough {
-		nFrag, nRotSmall, nRotBig, nLin, nCase = 60000, 12000, 1500, 40000, 8000
+		nFrag, nRotSmall, nRotBig, nLin, nCase = 300000, 40000, 4000, 150000, 20000
 	}
 	var harness []string
 	{
